@@ -8,7 +8,7 @@ TECHNIQUE = "runtime monitoring: causal-context oracle (unique taint tokens per 
 RULE = ("publish-heavy generated definitions (unique and deliberately conflicting variable names, values that record "
         "their own history by concatenation, diamonds, nested joins, splits, loops, both expression languages and all "
         "four ctx reference forms) x hashed outcomes x seeded schedules, plus every arrival order of small ones; every "
-        "offered context, rendered action input and rendered output is compared with the oracle; additionally the EXHAUSTIVE family of acyclic shapes over 4 tasks (every edge set with a join x every grouping of a task's outgoing edges into one transition or one per target x every per-transition choice of publishing the shared variable, once with values that record their history and once with two constants that recur: 2 x 1024 definitions, every completion order of each) and a hashed sample of the 5-task family; non-trivial = a join "
+        "offered context, rendered action input and rendered output is compared with the oracle; additionally the EXHAUSTIVE family of acyclic shapes over 4 tasks (every edge set with a join x every grouping of a task's outgoing edges into one transition or one per target x every per-transition choice of publishing the shared variable, once with values that record their history and once with two constants that recur: 2 x 1024 definitions, every completion order of each) and a hashed sample of the 5-task family; the multi-entry-cycle family (a task in a cycle reached from 2-3 parallel branches, 32 definitions) under every completion order (passes one after the other are checked in full, overlapping passes are finding F20); non-trivial = a join "
         "merged branches that disagree on at least one variable, or a context with >= 2 published variables was "
         "checked; distinct = (definition, history) digest")
 ASSUMPTIONS = ASSUME_SIM
